@@ -13,10 +13,28 @@ def unhex(h):
     return bytes.fromhex(h).decode("utf-8", "backslashreplace")
 
 
-def run_stream(args, run, stats, samples):
+VM = []   # VMCASE lines of this run (sampled cases with the extracted model's outputs)
+
+
+def vm_terms(vmlines):
+    """The Coq side of the extraction re-validation: the INPUT is printed here from the raw hex the harness emitted
+    (independently of the OCaml driver's parser); the expected side is what the driver printed."""
+    terms, exp, labels = [], [], []
+    for l in vmlines:
+        t = l.split("\t")
+        s, r = C.coq_hex(t[1]), C.coq_hex(t[2])
+        terms.append("(vres_class (validate_port %s), vres_str (validate_port %s), class_pinned %s, roundtrip_okb %s %s, "
+                     "split_host_port %s)" % (s, s, s, s, r, r))
+        exp.append(t[3])
+        labels.append("ValidatePort(%r)" % unhex(t[1]))
+    return terms, exp, labels
+
+
+def run_stream(args, run, stats, samples, stride=0):
     """Pipe the Go harness into the model driver; collect mismatches."""
     g = subprocess.Popen([os.path.join(C.BIN, "c20")] + args, stdout=subprocess.PIPE)
-    m = subprocess.Popen([os.path.join(C.BIN, "c20_model")], stdin=g.stdout, stdout=subprocess.PIPE)
+    m = subprocess.Popen([os.path.join(C.BIN, "c20_model")], stdin=g.stdout, stdout=subprocess.PIPE,
+                         env=C.vm_env(run.seed, stride) if stride else None)
     g.stdout.close()
     out = m.communicate()[0].decode()
     g.wait()
@@ -24,6 +42,8 @@ def run_stream(args, run, stats, samples):
     for line in out.splitlines():
         if line.startswith("MISMATCH"):
             mism.append(line)
+        elif line.startswith("VMCASE"):
+            VM.append(line)
         elif line.startswith("SUMMARY"):
             for kv in line.split()[1:]:
                 k, v = kv.split("=")
@@ -65,6 +85,7 @@ def handle_mismatches(run, mism):
 
 
 def run(run):
+    del VM[:]
     ok = C.proof_leg(run, PROP, PROOFS, trusted_extra=[
         "hand transcriptions of net.SplitHostPort, net.JoinHostPort, strconv.Atoi (modelled; tied by the differential run)",
         "extraction via ExtrOcamlBasic only; OCaml driver ocaml/c20.ml + util.ml; Go harness cmd/c20"])
@@ -80,20 +101,26 @@ def run(run):
     mism = []
     corpus = os.path.join(C.VERIF, "corpus", "C20", "inputs.txt")
     if os.path.exists(corpus):
-        mism += run_stream(["-mode", "corpus", "-file", corpus], run, stats, samples)
-    n_corpus = stats.get("n", 0)
-    length = 5 if run.tier == "quick" else 6
-    shards = C.NPROC if run.tier == "thorough" else 4
+        mism += run_stream(["-mode", "corpus", "-file", corpus], run, stats, samples, stride=1)
+    n_corpus, n_vm_corpus = stats.get("n", 0), len(VM)
+    # anchor drift (ValidatePort changed since the pinned tree): the quick tier takes the thorough tier's exhaustive length
+    big = run.tier == "thorough" or run.escalate > 1
+    length = 6 if big else 5
+    shards = C.NPROC if big else 4
     import concurrent.futures as cf
     with cf.ThreadPoolExecutor(max_workers=shards) as ex:
         futs = [ex.submit(run_stream, ["-mode", "exhaustive", "-len", str(length), "-shard", str(i), "-shards", str(shards)],
-                          run, stats, samples) for i in range(shards)]
+                          run, stats, samples, 40000 if big else 4000) for i in range(shards)]
         for f in futs:
             mism += f.result()
     n_exh = stats.get("n", 0) - n_corpus
-    nrand = 300000 if run.tier == "quick" else 5000000
-    mism += run_stream(["-mode", "random", "-n", str(nrand), "-seed", str(run.seed)], run, stats, samples)
+    nrand = run.scaled(300000) if run.tier == "quick" else 5000000     # anchor drift: escalated budget
+    mism += run_stream(["-mode", "random", "-n", str(nrand), "-seed", str(run.seed)], run, stats, samples, nrand // 150)
     handle_mismatches(run, mism)
+    # extraction re-validation: the whole corpus + a deterministic sample of the exhaustive and random cases, re-evaluated
+    # by Coq's VM against the compiled model
+    vm = VM[:n_vm_corpus] + C.vm_thin(VM[n_vm_corpus:], 300, run.seed)
+    C.vm_crosscheck(run, "c20", ["Port"], *vm_terms(vm))
     # a few sample lines for the evidence
     rc, out = C.sh([os.path.join(C.BIN, "c20"), "-mode", "random", "-n", "6", "-seed", str(run.seed)])
     for l in out.splitlines():
